@@ -269,7 +269,7 @@ def type_expression(ctx, rid, key, comp, spec):
                 i = list(spec["ty"].values())[0]
                 t = show(N.term(args[i]))
                 # the &Type / &TypeDef argument must be `resolve(<id>)` of an allowed id
-                mm = re.search(r"(?:PortableRegistry::resolve|resolve_type)\((?:[^,]+),(.+?)\)\)?\??(?:\.type_def)?$", t)
+                mm = re.search(r"(?:PortableRegistry::resolve|resolve_type)\((?:[^,]+),(.+?)\)\)?(?:@v1::Some\.0)?\??(?:\.type_def)?$", t)
                 if not mm:
                     bad.append("%s recurses on `%s`, which is not a registry look-up of a child id" % (cs, t[:120]))
                     continue
@@ -406,7 +406,7 @@ def transformer_scc(ctx, rid, key, comp, g, bindings):
         pt = show(Norm(pf).term(pf["body"]))
         who = cshort(b["in"])
         if "type_description" in b["in"]:
-            exp = "then(Option::is_some(Path::ident(P1.path)),Ok(description::type_name_with_type_params(P1,Transformer::types(P2))))"
+            exp = "then(let v1::Some($)=Path::ident(P1.path),Ok(description::type_name_with_type_params(P1,Transformer::types(P2))))"
             ctx.expect(pt == exp, rid, key + "/recurse-policy/" + who, pf["sp"],
                        "description: a type met again while in progress is referred to by name iff it has a path ident; unnamed types continue (finite by W5: every cycle passes through a named type)",
                        "description recurse policy is `%s`" % pt[:300])
